@@ -18,7 +18,10 @@ ASSUMPTIONS = ["without any assigned category feaLib infers the glyph classes fr
 
 
 def design_checks(tier):
-    return [dict(module="CursMC", cfg="CursMC.cfg", workers=4, timeout=300)]
+    return [dict(module="CursMC", cfg="CursMC.cfg", workers=4, timeout=300),
+            dict(module="FeaPipeline", cfg="FeaPipeline.cfg", workers=2, timeout=120),
+            dict(module="FeaPipeline", cfg="FeaPipeline_ltr.cfg", workers=2, timeout=120),
+            dict(module="FeaPipeline", cfg="FeaPipeline_shared.cfg", workers=2, timeout=120, expect_violation="VariableSurvives")]
 
 
 def cases(tier, seed):
